@@ -4,7 +4,7 @@ from .. import gen
 from ..core import hx
 
 # (names that only START with two dots are ordinary names: Kubernetes-style "..data", "...")
-NAMES = [b"a", b"b", b"c", b"a.txt", b"a-b", b"d", b"l", b"k", b"foo", b"a b", b"..data", b"...", b"..2", b"[v1]x"]
+NAMES = [b"a", b"b", b"c", b"a.txt", b"a-b", b"d", b"l", b"k", b"foo", b"a b", b"..data", b"...", b"..2", b"[v1]x", b"d:v", b"C:"]
 
 
 def link_tree(rng):
@@ -202,8 +202,10 @@ class FollowLinks(Suite):
         # F32: a link whose resolution text has a component with a pattern metacharacter, implementation = model, and the variant of
         # the model that takes link-target components literally (shared, fresh or keyed memo) meets the reference
         # (on a disk source the name that was not recognised as a link is then walked THROUGH: a cyclic one gives ELOOP from lstat)
+        # (... or, not cyclic, is resolved by the kernel where the listing-level transcription finds nothing: the two then differ)
         "F32": lambda op, impl, model: model.get("metalink") is True and
-        ((impl.get("out") == model.get("m") and not impl.get("ferr")) or "too many levels of symbolic links" in str(impl.get("ferr"))) and
+        ((impl.get("out") == model.get("m") and not impl.get("ferr")) or "too many levels of symbolic links" in str(impl.get("ferr"))
+         or (op["src"]["kind"] == "disk" and not impl.get("ferr"))) and
         (model.get("spec_lit") is True or (model.get("midwild") and model.get("spec_lit_nomid") is True)),
     }
 
